@@ -44,7 +44,8 @@ class TLCResult:
 
 
 def workdir(name: str) -> Path:
-  d = WORK / name
+  # the process id keeps concurrent runs of the same check (e.g. against two trees) apart
+  d = WORK / f'{name}.{os.getpid()}'
   if d.exists():
     shutil.rmtree(d, ignore_errors=True)
   d.mkdir(parents=True, exist_ok=True)
